@@ -127,7 +127,7 @@ class Unrenderable(Exception):
 
 
 EXN = {"ProtocolError": "XProtocolError", "TransportLost": "XTransportLost", "TypeError": "XTypeError",
-       "AttributeError": "XAttributeError", "Exception": "XException", "NoObject": "XNoObject"}
+       "AttributeError": "XAttributeError", "Exception": "XException", "NoObject": "XNoObject", "KeyError": "XKeyError"}
 
 
 def c_exn(name):
